@@ -300,6 +300,49 @@ def sampling_search(ctx, deep, only=None, record=None):
     return ev, viol
 
 
+def direction_search(ctx):
+    """isotropy of the sampled wave vectors: for an isotropic model the seed-averaged conditional correlation (1/N) sum_j cos(k_j . h) must
+    be rho(|h|) for lags along EVERY coordinate axis and along diagonals, in every dimension the samplers have a branch for (1-3 closed
+    forms, >= 4 the general n-sphere sampler: 3-D + time models).  A direction sampler that is not uniform on the sphere leaves the
+    variance and the statistic along one axis intact and shows only here."""
+    import gstools as gs
+    from gstools.field.generator import RandMeth
+    viol, ev = [], 0
+    cfgs = [("Gaussian", 2), ("Gaussian", 3), ("Gaussian", 4), ("Gaussian", 5)] if ctx.quick else \
+           [("Gaussian", d) for d in (2, 3, 4, 5, 6)] + [("Matern", 4)]
+    M = 60 if ctx.quick else 200
+    for name, dim in cfgs:
+        with warnings.catch_warnings():
+            warnings.simplefilter("ignore")
+            model = getattr(gs, name)(dim=dim, len_scale=2.0)
+            dirs = [np.eye(dim)[a] for a in range(dim)] + [np.ones(dim) / np.sqrt(dim)]
+            lag = 1.0 * model.len_scale
+            acc = np.zeros((M, len(dirs)))
+            for i in range(M):
+                g = RandMeth(model, mode_no=64, seed=9000 + i)
+                k = np.asarray(g._cov_sample)
+                acc[i] = [np.mean(np.cos(lag * (u @ k))) for u in dirs]
+        ev += M
+        m = acc.mean(0)
+        se = acc.std(0, ddof=1) / np.sqrt(M) + 1e-300
+        d = m - float(model.correlation(lag))
+        z = d / se
+        # between directions (the model bias of the radial sampler, if any, cancels): every axis against the mean over the axes
+        spread = m[:dim] - m[:dim].mean()
+        zs = spread / (se[:dim] + 1e-300)
+        # only the comparison BETWEEN directions is judged here; the radial law (and its known MCMC bias S1) is sampling_search's business
+        dg = m[dim] - m[:dim].mean()
+        zg = dg / (se[dim] + 1e-300)
+        if np.any((np.abs(zs) > 6.0) & (np.abs(spread) > 0.02)) or (abs(zg) > 6.0 and abs(dg) > 0.02):
+            viol.append({"key": f"spectral-sampling:directions:{name}:d{dim}",
+                         "what": f"wave vectors of RandMeth({name}, dim={dim}, mode_no=64) are not isotropic / not distributed as the spectral density: "
+                                 f"seed-averaged conditional correlation at lag len_scale along the axes and the diagonal minus model.correlation = "
+                                 f"{np.round(d, 3).tolist()}; axis minus mean over axes = {np.round(spread, 3).tolist()} (z = {np.round(zs, 1).tolist()}), "
+                                 f"diagonal minus mean over axes = {dg:.3f} (z = {zg:.1f})",
+                         "case": dict(model=repr(model), mode_no=64, seeds=M, diff=d.tolist(), z=z.tolist())})
+    return ev, viol
+
+
 def fourier_finite_search(ctx):
     """every Fourier field must be finite: the weights sqrt(S(k) prod(dk)) of models on the numerical (Hankel) spectrum, whose values at
     large k are noise of either sign"""
@@ -541,14 +584,16 @@ def search(ctx, deep=False):
     ev_f, v_f = fourier_finite_search(ctx)
     ev_h, v_h = history_sampling_search(ctx)
     ev_o, v_o = option_paths_search(ctx)
-    ev += ev_s + ev_f + ev_h + ev_o
-    viol = v_o + v_h + v_f + v_s + viol
+    ev_d, v_d = direction_search(ctx)
+    ev += ev_s + ev_f + ev_h + ev_o + ev_d
+    viol = v_o + v_d + v_h + v_f + v_s + viol
     return {"evaluations": ev, "violations": viol[:40],
             "summary": f"spectral-sampling test ({ev_s} generators: seed-averaged conditional covariance (var/N) sum cos<k_j,h> against model.correlation, "
                        "6 sigma and 2 % of the variance; 17 classes x dim 1-3 x mode_no 64/1000 in thorough, a rotating subset in quick); "
                        f"{ev_f} Fourier fields of numerical-spectrum models checked for finiteness; "
                        f"{ev_h} generators reached through in-place model changes compared with freshly built ones (wave vectors / weights bit-identical); "
                        f"{ev_o} calls with point_volumes under both upscaling methods against the plain field times the documented factor; "
+                       f"{ev_d} generators of isotropic models in dim 2-5 (the n-sphere direction sampler incl.) for isotropy: the statistic along every axis and the diagonal; "
                        f"seed ensembles ({M} seeds per configuration, {len(configs)} configurations incl. anisotropic/rotated models, nugget, one MCMC-sampled model "
                        "in quick / all in thorough): mean, pointwise variance and lag covariances against model.covariance at a 6-sigma threshold; "
                        "Fourier ensembles against the spectral Riemann sum and that sum against the model (5 % of var)"}
